@@ -44,6 +44,14 @@ def rule_r1_r5(facts, rep):
     for s in stmts:
         if s.get("k") == "if" and any(x.get("k") == "ret" for x in fb.walk(s["t"], into_closures=False)):
             cond = s["c"]
+            # `let taken = graph.maybe_key(&k).is_some(); if taken {..}`: look through simple locals
+            hops = 0
+            while cond.get("k") == "path" and cond.get("res") == "local" and hops < 4:
+                b_ = c.binds.get(cond["id"])
+                if not (b_ and b_[0] == "expr"):
+                    break
+                cond = b_[1]
+                hops += 1
             mk = [x for x in fb.walk(cond) if x.get("k") == "mcall" and x["name"] == "maybe_key"]
             issome = [x for x in fb.walk(cond) if x.get("k") == "mcall" and x["name"] in ("is_some",)]
             if mk and issome and not (cond.get("k") == "unary" and cond.get("op") == "!"):
@@ -117,7 +125,15 @@ def rule_r1_r5(facts, rep):
         if over_affected(bk) is None:
             use("build_key(new)", bk["args"][0])
     if guard is not None:
-        mk0 = [x for x in fb.walk(guard["c"]) if x.get("k") == "mcall" and x["name"] == "maybe_key"][0]
+        gc_ = guard["c"]
+        hops = 0
+        while gc_.get("k") == "path" and gc_.get("res") == "local" and hops < 4:
+            b_ = c.binds.get(gc_["id"])
+            if not (b_ and b_[0] == "expr"):
+                break
+            gc_ = b_[1]
+            hops += 1
+        mk0 = [x for x in fb.walk(gc_) if x.get("k") == "mcall" and x["name"] == "maybe_key"][0]
         uses.append(("taken-name guard", guard_key[0] if guard_key else None, guard_key[1] if guard_key else None, mk0["args"][0]))
     ids = set(u[1] for u in uses)
     key = f.def_ + "|single-new-key"
